@@ -43,6 +43,7 @@ def run(c):
     r.inherit(rnd, n)
     r.include(rnd, n)
     r.effective3(rnd, 400 if thorough else 60)
+    r.effective2(rnd, 300 if thorough else 40)
     c.coverage['correspondence'] = r.evidence()
     c.coverage['evaluations'] = sum(v.get('cases', 0) for v in r.evidence().values())
     c.coverage['disagreements_checked'] = len(r.disagreements)
